@@ -71,6 +71,15 @@ CHECKS = {
         note="Coq kernel; extraction/driver; harness; Python's sorted() modelled as a stable insertion sort; str.lower as a parameter; no axioms",
         technique="Coq proof over hand-written Gallina model + differential correspondence",
         design="4 C20"),
+    "C05": dict(
+        text=("Theorems over the Gallina transcription of json_writer.to_json and json_reader.parse_tree/parse_constraints: for "
+              "every model of the JSON fragment (any tree, any relation cardinalities, any names, any attribute values) the reader "
+              "applied to what the writer produced returns the same model with correct back pointers — plain equality — and "
+              "therefore any number of cycles; the fuel (document depth) the reader model uses is proved sufficient. The JSON text "
+              "layer (json.dumps/loads) is an external-library hypothesis validated by parsing the implementation's file on every case."),
+        note="Coq kernel; extraction/driver; harness; json module round trip; no axioms",
+        technique="Coq proof (round-trip by induction over the tree) + differential correspondence on writer and reader",
+        design="4 C05"),
 }
 
 NOT_YET = {
